@@ -4,9 +4,13 @@ specification `Toeplitz.toep` over `ℝ` (linear in the signal, symmetric), and 
 
 * `toep_smul`, `toep_add`, `toep_congr`: `toep h l band · i` is a linear form of the first `l` entries of the signal;
 * `toep_symm`: `Σ_i (T x)_i y_i = Σ_i x_i (T y)_i` — the band matrix `band|i−j|` is symmetric (`dist_comm`);
+* `toep_band_congr`: only the band values `band 0 … band h` matter;
+* `bandRow_unbatched`, `toepBandAt_unbatched`: for an un-batched band array (`vals.shape = [K]`) every batch row
+  reads the band row `0`, i.e. `toepBandAt K vals shape b = toepBand vals`;
 * `toepLeaf_length`, `toepLeaf_getD`: the output of `toepLeaf` has the size of the leaf, and its entry at the flat
-  position `q` is `toep (K−1) l band (row q/l) (q % l)`; `toepLeaf_getD_row`: at `b*l + i`, `i < l`, it is
-  `toep (K−1) l band (row b) i`;
+  position `q` is `toep (K−1) l (band row of q/l) (row q/l) (q % l)`; `toepLeaf_getD_row`: at `b*l + i`, `i < l`, it
+  is `toep (K−1) l (band row of b) (row b) i`; `toepLeaf_getD_row_unbatched`: with `toepBand vals` when the band
+  is un-batched;
 * `toepLeaf_smul`: the kernel commutes with multiplication by a scalar.
 Additivity (`toepLeaf_vadd`) is in LinearList.lean, adjointness (`toepLeaf_adjoint`) in AdjointList.lean, next to
 the notions they are stated with.
@@ -54,6 +58,28 @@ theorem toep_symm (h l : Nat) (band x y : Nat → ℝ) :
   apply sum_congr rfl; intro i _
   rw [Toeplitz.dist_comm i j]; ring
 
+/-- only the band values `band 0 … band h` matter -/
+theorem toep_band_congr (h l : Nat) (band band' x : Nat → ℝ) (i : Nat) (hb : ∀ k, k ≤ h → band k = band' k) :
+    toep h l band x i = toep h l band' x i := by
+  unfold toep
+  rw [sumRange_eq, sumRange_eq]
+  refine sum_congr rfl fun j _ => ?_
+  split
+  · next hd => rw [hb _ hd]
+  · rfl
+
+/-! ### the band row of a batch row -/
+
+/-- an un-batched band array has one band row: every batch row reads row `0` -/
+theorem bandRow_unbatched (K : Nat) (dshape : List Nat) (b : Nat) : bandRow [K] dshape b = 0 := by
+  simp [bandRow, bcastIndex, ravelIdx]
+
+/-- **the un-batched case**: the band row of every batch row is the band array itself -/
+theorem toepBandAt_unbatched (K : Nat) (vals : Tensor Rat) (hs : vals.shape = [K]) (shape : List Nat) (b : Nat) :
+    toepBandAt K vals shape b = toepBand vals := by
+  funext k
+  simp [toepBandAt, hs, bandRow_unbatched]
+
 /-! ### the entries of `toepLeaf` -/
 
 theorem getD_map_mul (a : ℝ) (x : V) (i : Nat) : (x.map fun v => a * v).getD i 0 = a * x.getD i 0 := by
@@ -70,25 +96,32 @@ theorem rowOf_smul (l : Nat) (a : ℝ) (x : V) (b j : Nat) :
 /-- entry `q` of the output: the banded product of row `q / l` of the input, at position `q % l` -/
 theorem toepLeaf_getD (K : Nat) (vals : Tensor Rat) (li lo : LeafS) (x : V) (q : Nat) (hq : q < li.size) :
     (toepLeaf K vals li lo x).getD q 0 =
-      toep (K - 1) (li.shape.getLastD 1) (toepBand vals) (rowOf (li.shape.getLastD 1) x (q / li.shape.getLastD 1))
-        (q % li.shape.getLastD 1) := by
+      toep (K - 1) (li.shape.getLastD 1) (toepBandAt K vals li.shape (q / li.shape.getLastD 1))
+        (rowOf (li.shape.getLastD 1) x (q / li.shape.getLastD 1)) (q % li.shape.getLastD 1) := by
   unfold toepLeaf
   simp only []
   rw [List.getD_eq_getElem _ _ (by simpa using hq)]
   simp
 
 /-- **the statement of the kernel**: at the flat position `b*l + i` (`i < l`) the output is
-`toep (K−1) l band (row b of the input) i` -/
+`toep (K−1) l (band row of b) (row b of the input) i` -/
 theorem toepLeaf_getD_row (K : Nat) (vals : Tensor Rat) (li lo : LeafS) (x : V) (b i : Nat)
     (hi : i < li.shape.getLastD 1) (hq : b * li.shape.getLastD 1 + i < li.size) :
     (toepLeaf K vals li lo x).getD (b * li.shape.getLastD 1 + i) 0 =
-      toep (K - 1) (li.shape.getLastD 1) (toepBand vals) (rowOf (li.shape.getLastD 1) x b) i := by
+      toep (K - 1) (li.shape.getLastD 1) (toepBandAt K vals li.shape b) (rowOf (li.shape.getLastD 1) x b) i := by
   rw [toepLeaf_getD K vals li lo x _ hq]
   have h1 : (b * li.shape.getLastD 1 + i) / li.shape.getLastD 1 = b := by
     rw [Nat.add_comm, Nat.add_mul_div_right _ _ (by omega), Nat.div_eq_of_lt hi, Nat.zero_add]
   have h2 : (b * li.shape.getLastD 1 + i) % li.shape.getLastD 1 = i := by
     rw [Nat.add_comm, Nat.add_mul_mod_self_right, Nat.mod_eq_of_lt hi]
   rw [h1, h2]
+
+/-- the same for an un-batched band array (`vals.shape = [K]`): the band is `toepBand vals` on every row -/
+theorem toepLeaf_getD_row_unbatched (K : Nat) (vals : Tensor Rat) (hs : vals.shape = [K]) (li lo : LeafS) (x : V)
+    (b i : Nat) (hi : i < li.shape.getLastD 1) (hq : b * li.shape.getLastD 1 + i < li.size) :
+    (toepLeaf K vals li lo x).getD (b * li.shape.getLastD 1 + i) 0 =
+      toep (K - 1) (li.shape.getLastD 1) (toepBand vals) (rowOf (li.shape.getLastD 1) x b) i := by
+  rw [toepLeaf_getD_row K vals li lo x b i hi hq, toepBandAt_unbatched K vals hs]
 
 /-- the Toeplitz kernel commutes with multiplication by a scalar, for every input list -/
 theorem toepLeaf_smul (K : Nat) (vals : Tensor Rat) (li lo : LeafS) (a : ℝ) (x : V) :
